@@ -38,6 +38,9 @@ Section Interp.
     match m with Raise ValueError => k | _ => m end.
 
   (* ------------------------------------------------------------------ to_obj *)
+  (* States that the public API cannot reach (a byte-string node holding None, a tuple with more values than fields, a
+     starred field that is not the last: the introspector fails closed on that) make the model decline (Unsupported) instead
+     of mirroring the AttributeError / GeneratorError Python would raise there. *)
   Definition tuple_key (names : list bytes) (nk : nat) (i : nat) : res bytes :=
     match nth_error names i with
     | Some k => Ok (replace_star k [49])
@@ -45,8 +48,8 @@ Section Interp.
         match rev names with
         | last :: _ => if existsb (Z.eqb 42) last
                        then Ok (replace_star last (str_of_nonneg (Z.of_nat (i - nk + 2))))
-                       else Raise GeneratorError
-        | [] => Raise GeneratorError
+                       else Raise Unsupported
+        | [] => Raise Unsupported
         end
     end.
 
@@ -63,9 +66,9 @@ Section Interp.
     | TAny | TInt | TUint | TBool | TNull | TTstr | TBchar | TEnum _ =>
         match v with VRaw c => Ok c | _ => Raise Unsupported end
     | TBstr | THex | TEmptyBstr =>
-        match v with VRaw (CBytes b) => Ok (hex_text b) | VRaw _ => Raise AttributeError | _ => Raise Unsupported end
+        match v with VRaw (CBytes b) => Ok (hex_text b) | VRaw _ => Raise Unsupported | _ => Raise Unsupported end
     | TUUID =>
-        match v with VRaw (CBytes b) => Ok (CMap [(CText (s2b "raw"), hex_text b)]) | VRaw _ => Raise AttributeError | _ => Raise Unsupported end
+        match v with VRaw (CBytes b) => Ok (CMap [(CText (s2b "raw"), hex_text b)]) | VRaw _ => Raise Unsupported | _ => Raise Unsupported end
     | TImageSize => match v with VRaw c => Ok (CMap [(CText (s2b "raw"), c)]) | _ => Raise Unsupported end
     | TEncInfoExt => Raise ValueError
     | TDigestExt => rec (TRef (s2b "SuitDigestRaw")) v
@@ -78,14 +81,14 @@ Section Interp.
         match v with
         | VSeq l =>
             let names := map fst fields in
-            if existsb (fun k => existsb (Z.eqb 42) k) (removelast names) then Raise GeneratorError else
+            if existsb (fun k => existsb (Z.eqb 42) k) (removelast names) then Raise Unsupported else
             (fix go (l : list val) (i : nat) (acc : list (cbor * cbor)) : res cbor :=
                match l with
                | [] => Ok (CMap acc)
                | x :: r =>
                    let* key := tuple_key names (length names) i in
                    match field_ty fields i with
-                   | None => Raise GeneratorError
+                   | None => Raise Unsupported
                    | Some ft => let* o := rec ft x in go r (S i) (dict_set acc (CText key) o)
                    end
                end) l O []
@@ -509,7 +512,7 @@ Section Interp.
         | _ => Raise ValueError
         end
     | TList None _ =>
-        let* c := dec b in match c with CArray _ => Raise TypeError | _ => Raise ValueError end
+        Raise Unsupported
     | TBitfield bt n =>
         let* c := dec b in
         match as_pyint c with
